@@ -6,7 +6,8 @@
 (*   st \in {"none","valid","revoked"}; b = which certificate body (public *)
 (*   key) is registered under that owner+serial (0 when none).             *)
 (* Transactions (one action per message handler, plus the two layers that  *)
-(* can refuse before it): Create(signer, mo, cn, s, b), Revoke(signer,o,s).*)
+(* can refuse before it): Create(signer, mo, cn, s, b), Revoke(signer,o,s) *)
+(* with s as SPELLED in the message (Spellings).                           *)
 (* Queries (results are functions of reg): the gRPC listing with a filter  *)
 (* and a page size (pages obtained by following next_key), the keeper's    *)
 (* With* iterators, and the keeper's direct lookup.                        *)
@@ -32,6 +33,10 @@ CONSTANTS
                    \* suffix panics); FALSE describes the code after fix fe8a768
     MaxOps,        \* bound on accepted transactions per behaviour (model checking only)
     PageSizes,     \* page sizes of paginated listings; 0 = no pagination requested
+    Spellings,     \* how a request may SPELL a serial: records [sp, rd] -- sp the text in the message / filter ("" =
+                   \* canonical decimal), rd the class its DECIMAL reading names, "other" (a decimal number that
+                   \* is no class of the model) or "invalid" (no decimal number). As built, requests are read
+                   \* in base 10: leading zeros and "+" are fine, anything else is refused without effect.
     PageModes,     \* how a client pages: "key" (follow next_key), "total" (the same, asking for count_total),
                    \* "offset" (offset += page size until next_key is empty)
     WithQueries    \* BOOLEAN: include the query actions (off for behaviour export)
@@ -76,22 +81,25 @@ CreateOK(r, signer, mo, cn, s) == signer = mo /\ mo = cn /\ ~Registered(r, cn, s
 CreateReg(r, signer, mo, cn, s, b) ==
     IF CreateOK(r, signer, mo, cn, s) THEN [r EXCEPT ![cn][s] = [st |-> "valid", b |-> b]] ELSE r
 
-RevokeOK(r, signer, o, s) == signer = o /\ r[o][s].st = "valid"
+RevokeOK(r, signer, o, s) == s \in Serials /\ signer = o /\ r[o][s].st = "valid"
 RevokeReg(r, signer, o, s) ==
     IF RevokeOK(r, signer, o, s) THEN [r EXCEPT ![o][s].st = "revoked"] ELSE r
 
 CreateAct(signer, mo, cn, s, b, ok) ==
-    [k |-> "create", signer |-> signer, mo |-> mo, o |-> cn, s |-> s, b |-> b, ok |-> ok]
+    [k |-> "create", signer |-> signer, mo |-> mo, o |-> cn, s |-> s, b |-> b, sp |-> "", ok |-> ok]
 RevokeAct(signer, o, s, ok) ==
-    [k |-> "revoke", signer |-> signer, mo |-> "", o |-> o, s |-> s, b |-> 0, ok |-> ok]
+    [k |-> "revoke", signer |-> signer, mo |-> "", o |-> o, s |-> s, b |-> 0, sp |-> "", ok |-> ok]
+\* the same with the spelling the message used (s is always what the decimal reading names)
+RevokeActSp(signer, o, spl, ok) == [RevokeAct(signer, o, spl.rd, ok) EXCEPT !.sp = spl.sp]
 
 Create(signer, mo, cn, s, b) ==
     /\ reg' = CreateReg(reg, signer, mo, cn, s, b)
     /\ out' = CreateAct(signer, mo, cn, s, b, CreateOK(reg, signer, mo, cn, s))
 
-Revoke(signer, o, s) ==
-    /\ reg' = RevokeReg(reg, signer, o, s)
-    /\ out' = RevokeAct(signer, o, s, RevokeOK(reg, signer, o, s))
+\* spl \in Spellings: the message spells the serial spl.sp, which in decimal names spl.rd
+Revoke(signer, o, spl) ==
+    /\ reg' = RevokeReg(reg, signer, o, spl.rd)
+    /\ out' = RevokeActSp(signer, o, spl, RevokeOK(reg, signer, o, spl.rd))
 
 -----------------------------------------------------------------------------
 (* Queries.                                                                 *)
@@ -160,7 +168,10 @@ ScanFails(spans) == ZeroSerialPanics /\ \E i \in DOMAIN spans : \E k \in spans[i
 
 ListRes(r, f, ps, pm) ==
     IF IsDirect(f)
-    THEN [ok |-> TRUE,
+    THEN IF f.s \notin Serials       \* a spelled serial that names no class: nothing; not a decimal number: refused
+         THEN [ok |-> f.s # "invalid", pages |-> IF f.s = "invalid" THEN << >> ELSE << << >> >>]
+         ELSE
+         [ok |-> TRUE,
           pages |-> << IF Registered(r, f.o, f.s) /\ Hit(r, f, <<f.o, f.s>>)
                        THEN << Item(r, <<f.o, f.s>>) >> ELSE << >> >>]
     ELSE LET sp == PageSpans(r, f, ps, pm) IN
@@ -173,6 +184,8 @@ GetRes(r, o, s) ==
 QRec(kind, f, ps, pm, res) == [k |-> kind, f |-> f, ps |-> ps, pm |-> pm, ok |-> res.ok, pages |-> res.pages]
 
 List(f, ps, pm) == out' = QRec("list", f, ps, pm, ListRes(reg, f, ps, pm)) /\ UNCHANGED reg
+\* lookup by owner and a SPELLED serial: the filter is what the decimal reading names
+Lookup(o, spl)  == List([o |-> o, s |-> spl.rd, st |-> ""], 0, "key")
 Iter(f)     == out' = QRec("iter", f, 0, "key", IterRes(reg, f)) /\ UNCHANGED reg
 Get(o, s)   == out' = QRec("get", [o |-> o, s |-> s, st |-> ""], 0, "key", GetRes(reg, o, s)) /\ UNCHANGED reg
 
@@ -193,9 +206,9 @@ MsgNext ==
           /\ signer = mo \/ cn = mo                   \* a foreign signature is tried on well-formed messages only
           /\ CreateOK(reg, signer, mo, cn, s) => Ops(reg) < MaxOps
           /\ Create(signer, mo, cn, s, b)
-    \/ \E signer \in Owners, o \in Owners, s \in Serials :
-          /\ RevokeOK(reg, signer, o, s) => Ops(reg) < MaxOps
-          /\ Revoke(signer, o, s)
+    \/ \E signer \in Owners, o \in Owners, spl \in Spellings :
+          /\ RevokeOK(reg, signer, o, spl.rd) => Ops(reg) < MaxOps
+          /\ Revoke(signer, o, spl)
 
 QueryNext ==
     /\ WithQueries
@@ -204,6 +217,7 @@ QueryNext ==
              /\ List(f, ps, pm)
        \/ \E f \in Filters : f.s = "" /\ Iter(f)
        \/ \E o \in Owners, s \in Serials : Get(o, s)
+       \/ \E o \in Owners, spl \in Spellings : spl.sp # "" /\ Lookup(o, spl)
 
 Next == MsgNext \/ QueryNext
 Spec == Init /\ [][Next]_vars
@@ -243,8 +257,8 @@ StepProps(r, r2, a) ==
     StepRegister(r, r2, a) /\ StepOnce(r, r2, a) /\ StepMonotone(r, r2, a) /\ StepRevoke(r, r2, a)
     /\ StepQuery(r, r2, a)
 
-\* "listings never fail"
-QTotal(q) == q.ok
+\* "listings never fail" (a request whose serial is not a decimal number may be refused)
+QTotal(q) == q.ok \/ (q.k = "list" /\ q.f.s = "invalid")
 
 RECURSIVE Flat(_)
 Flat(pages) == IF pages = << >> THEN << >> ELSE Head(pages) \o Flat(Tail(pages))
@@ -270,7 +284,7 @@ QLookupExact(r, q) ==
     (q.ok /\ (q.k = "get" \/ (q.k = "list" /\ IsDirect(q.f)))) =>
         LET items == Flat(q.pages) IN
         \A i \in DOMAIN items :
-            /\ items[i].o = q.f.o /\ items[i].s = q.f.s
+            /\ items[i].o = q.f.o /\ items[i].s = q.f.s /\ q.f.s \in Serials
             /\ Registered(r, q.f.o, q.f.s) /\ items[i].b = r[q.f.o][q.f.s].b
 
 TypeOK ==
